@@ -58,6 +58,39 @@ def lemmas(idx):
         if key in seen: seen[key].meta['covers'].append('%s:%s' % (cfg, f['key'])); return
         n += 1; lem = alg.AlgLemma('prj_%d' % n, vs, lhs, rhs, hyps=hyps, tactic=tactic, meta={'cfg': cfg, 'key': f['key'], 'file': f['file'], 'fid': f['fid'], 'did': f['did'], 'covers': ['%s:%s' % (cfg, f['key'])], 'spec': sname})
         seen[key] = lem; order.append(lem)
+    # ---- view matrices: look_to_rh(eye, dir, up) has rows s = normalize(f x up), u = s x f, -f and translation (-eye.s, -eye.u, eye.f); f = dir
+    # (Mat4 / Mat3: dir is required to be unit) or normalize(dir) (Affine3A); _lh is _rh with -dir; look_at uses dir = normalize(center - eye).
+    # normalize(v) is v * (1 / sqrt(v.v)) as proved in C02.
+    def sub(a, b): return ['(%s - %s)%%K' % (x, y) for x, y in zip(a, b)]
+    def neg(a): return ['(- %s)%%K' % x for x in a]
+    def dot3(a, b): return alg.S([alg.P(x, y) for x, y in zip(a, b)])
+    def cross(a, b): return ['(%s * %s - %s * %s)%%K' % (a[1], b[2], a[2], b[1]), '(%s * %s - %s * %s)%%K' % (a[2], b[0], a[0], b[2]), '(%s * %s - %s * %s)%%K' % (a[0], b[1], a[1], b[0])]
+    def nrm(a): r = '(k1 / k_un FSqrt %s)%%K' % dot3(a, a); return ['(%s * %s)%%K' % (x, r) for x in a]
+    def view(eye, fdir, up, kind):
+        s_ = nrm(cross(fdir, up)); u_ = cross(s_, fdir); nf = neg(fdir)
+        cols3 = [[s_[c], u_[c], nf[c]] for c in range(3)]
+        if kind == 'mat3': return [x for col in cols3 for x in col]
+        tr = ['(- %s)%%K' % dot3(eye, s_), '(- %s)%%K' % dot3(eye, u_), dot3(eye, fdir)]
+        if kind == 'affine': return [x for col in cols3 for x in col] + tr
+        return [x for col in cols3 for x in col + ['k0']] + tr + ['k1']
+    VIEW = {'Mat4': ('f32', 'mat4', False), 'DMat4': ('f64', 'mat4', False), 'Mat3': ('f32', 'mat3', False), 'Mat3A': ('f32', 'mat3', False), 'DMat3': ('f64', 'mat3', False),
+            'Affine3A': ('f32', 'affine', True), 'DAffine3': ('f64', 'affine', True)}
+    for cfg in CFGS:
+        structs = idx.structs(cfg)
+        for f in idx.fns(cfg):
+            st = f['self']; tn = tname(st) if st is not None else None
+            if tn not in VIEW or f['generic'] or f['by_ref'] or not f['pub'] or f['has_self'] or f['name'] not in ('look_to_rh', 'look_to_lh', 'look_at_rh', 'look_at_lh'): continue
+            k, kind, normdir = VIEW[tn]; name = f['name']; ps = f['params']
+            try:
+                vs = []; P = [sym(structs, p_[1], 'abc'[i], vs) for i, p_ in enumerate(ps)]; V = [[l[2] for l in tree_leaves(p_)] for p_ in P]
+                if kind == 'mat3' and name.startswith('look_to'): eye = None; d_, up = V
+                elif name.startswith('look_to'): eye, d_, up = V
+                else: eye, ctr, up = V; d_ = sub(ctr, eye) if normdir else nrm(sub(ctr, eye))
+                if name.endswith('_lh'): d_ = neg(d_)
+                if normdir: d_ = nrm(d_)
+                lanes = view(eye, d_, up, kind)
+                add(cfg, f, vs, [tree_coq(p_) for p_ in P], st, lanes, '%s: rows s = normalize(f x up), u = s x f, -f; translation -(eye.s), -(eye.u), eye.f' % name, tactic='alg_congr')
+            except (SymErr, ValueError): continue
     for cfg in CFGS:
         structs = idx.structs(cfg)
         for f in idx.fns(cfg):
